@@ -9,10 +9,11 @@ L7 serializers: the three functions `OFXClient.serialize` (ofxtools/Client.py) c
 * `indent`         — `ofxtools.utils.indent`; the real function mutates, the model returns the new tree.  The loop
                      `for elem in elem:` rebinds `elem`, so the statement after the loop acts on the LAST CHILD
                      (`setLastTail`).
-* `toStringUnclosed` — `ofxtools.utils.tostring_unclosed_elements`: no escaping; a childless element is written
-                     `<TAG>text tail` (no end tag, also for an empty aggregate); for an element with children the
-                     TEXT is not written at all and the TAIL is written twice (after the start tag and after the end
-                     tag).
+* `toStringUnclosed` — `ofxtools.utils.tostring_unclosed_elements` (as of the commit "fix: tostring_unclosed_elements
+                     escapes element data"): a childless element is written `<TAG>escape(text) tail` with
+                     `xml.sax.saxutils.escape` (`saxEscape`: `&`, `>`, `<` in that order) — no end tag, also for an empty
+                     aggregate; the tail is written raw; for an element with children the TEXT is not written at all
+                     and the TAIL is written twice (after the start tag and after the end tag), raw.
 * `serializeBody` / `serialize` — the body assembly of `OFXClient.serialize`; the header string is an opaque parameter.
 
 The output strings are `Str`; the real functions return their UTF-8 encoding (the driver's protocol atoms are the
@@ -95,11 +96,17 @@ mutual
     | c :: cs, level => indent c level :: indentList cs level
 end
 
+/-- `xml.sax.saxutils.escape(data)` (no extra entities): `&` first, then `>`, then `<` -/
+def saxEscape (s : Str) : Str :=
+  let s := replace "&".toList "&amp;".toList s
+  let s := replace ">".toList "&gt;".toList s
+  replace "<".toList "&lt;".toList s
+
 mutual
   /-- `utils.tostring_unclosed_elements(elem)` (decoded) -/
   def toStringUnclosed : Tree → Str
     | .node tag text tail cs =>
-      if cs.isEmpty then startTag tag ++ (orEmpty text ++ orEmpty tail)
+      if cs.isEmpty then startTag tag ++ (saxEscape (orEmpty text) ++ orEmpty tail)
       else startTag tag ++ (orEmpty tail ++ (toStringUnclosedList cs ++ (endTag tag ++ orEmpty tail)))
   def toStringUnclosedList : List Tree → Str
     | [] => []
